@@ -1,5 +1,9 @@
 pub mod c01;
 pub mod scenes;
+pub mod c10;
+pub mod c11;
+pub mod c14;
+pub mod c15;
 
 use crate::runner::{Ctx, Outcome};
 
@@ -7,6 +11,10 @@ pub fn dispatch(ctx: &Ctx) -> Option<Outcome> {
     match ctx.prop.as_str() {
         "C01" => Some(c01::run(ctx)),
         "C02" | "C03" | "C05" | "C06" | "C18" => Some(scenes::run(ctx)),
+        "C10" => Some(c10::run(ctx)),
+        "C11" => Some(c11::run(ctx)),
+        "C14" => Some(c14::run(ctx)),
+        "C15" => Some(c15::run(ctx)),
         _ => None,
     }
 }
